@@ -6,6 +6,7 @@ import (
 	"fmt"
 	"net/http"
 	"net/http/httptest"
+	"regexp"
 	"strconv"
 	"strings"
 	"sync"
@@ -437,10 +438,24 @@ func c37HasExc(streams []famStream) bool {
 	return false
 }
 
+var c37Digits = regexp.MustCompile(`[0-9]+`)
+
+// c37Canon renders a response for the hooked-vs-hookless comparison. Numbers inside exception
+// messages are masked: a cap refusal quotes the body size, which depends on the (randomly keyed,
+// compressed) state token and differs between two servers by a few bytes.
 func c37Canon(streams []famStream) string {
 	p := []string{}
 	for _, st := range streams {
-		p = append(p, st.canon())
+		parts := []string{famSchemaCanon(st.Schema)}
+		for _, b := range st.Batches {
+			if b.kind() == "exc" {
+				msg, _ := b.get(vgirpc.MetaLogMessage)
+				parts = append(parts, fmt.Sprintf("exc %q %s", c37Digits.ReplaceAllString(msg, "N"), b.rid()))
+			} else {
+				parts = append(parts, b.canon())
+			}
+		}
+		p = append(p, strings.Join(parts, " ; "))
 	}
 	return strings.Join(p, " || ")
 }
